@@ -181,6 +181,44 @@ fn one_record(rec: &Value, props: &BTreeSet<String>, long: &mut MoveGenerator, a
         }
     }
 
+    // ---- C01 on positions REACHED by the code's own apply: after every legal move that touches the hidden
+    // state (castling rights, en-passant target: king / rook moves, captures of rooks, double steps, castles,
+    // en passant, promotions) the moves a fresh generator returns on the board the CODE produced are logged
+    // together with the SPEC's successor; TLC (Trace_Records "moves") compares them with Legal(successor)
+    if has("C01") && REACHED.load(std::sync::atomic::Ordering::Relaxed) && rec["ply"].as_u64().unwrap_or(0) <= 1 {
+        for o in &omoves {
+            let mover_kind = (pos.b[(o.m.f - 1) as usize] - 1) % 6 + 1;
+            let interesting = o.m.k != 'S' || mover_kind == 6 || mover_kind == 4 || o.m.c == 4
+                || (mover_kind == 1 && (o.m.t as i64 - o.m.f as i64).abs() == 16);
+            if !interesting {
+                continue;
+            }
+            let mut want = Pos::from_key(&o.succ);
+            want.turn = 1 - want.turn;
+            if !acc.board_keys.insert(want.key()) {
+                continue;
+            }
+            let r = guarded(|| {
+                let mut board = pos.setup();
+                let m = o.m.to_chess_move(side);
+                if m.apply(&mut board).is_err() {
+                    return None;
+                }
+                board.toggle_turn();
+                let mut gen = MoveGenerator::with_cache_capacity(FRESH_CAP);
+                let list = gen.generate_moves(&mut board, side.opposite());
+                Some(list.iter().map(|m| Mv::of(m).to_json()).collect::<Vec<_>>())
+            });
+            acc.eval("C01", 1);
+            let line = match r {
+                Ok(Some(mv)) => json!({"t": "moves", "pos": want.to_json(), "mv": mv, "via": o.m.to_json(), "from": pos.fen()}).to_string(),
+                Ok(None) => continue,
+                Err(p) => json!({"t": "panic", "pos": want.to_json(), "where": format!("generate_moves on the board reached by a legal move: {}", p), "via": o.m.to_json(), "from": pos.fen()}).to_string(),
+            };
+            acc.boards.push(line);
+        }
+    }
+
     // ---- C04 (queries): generation, annotation, notation, check test, counting and a shallow search must
     // leave the caller's board exactly as they found it -- on EVERY oracle state (pinned en passant,
     // castling through check, promotions in check ... are where a filter might "tidy up" the board)
@@ -478,8 +516,13 @@ fn one_record(rec: &Value, props: &BTreeSet<String>, long: &mut MoveGenerator, a
     }
 }
 
+pub static REACHED: std::sync::atomic::AtomicBool = std::sync::atomic::AtomicBool::new(false);
+
 pub fn main(args: &[String]) {
     let path = &args[0];
+    if has_flag(args, "--reached") {
+        REACHED.store(true, std::sync::atomic::Ordering::Relaxed);
+    }
     let props: BTreeSet<String> = arg_val(args, "--props").unwrap_or_default().split(',').filter(|s| !s.is_empty()).map(|s| s.to_string()).collect();
     let threads = arg_u64(args, "--threads", 16) as usize;
     let game_sample = arg_u64(args, "--game-sample", 0) as usize;
